@@ -150,21 +150,28 @@ class World(object):
         las = self.objs[k - 1]
         self.count += 1
         how = self.count % 4
-        if how == 0:
-            las.well["COMP"].value = "mutated %d" % self.count if "COMP" in las.well else None
-            if "COMP" not in las.well:
-                las.well.append(HeaderItem("COMP", value="mutated %d" % self.count))
-        elif how == 1:
-            las.version["VERS"].descr = "mutated %d" % self.count
-        elif how == 2:
-            las.curves[0].data[0] += 1000.0 + self.count
-        else:
+        try:
+            if how == 0:
+                las.well["COMP"].value = "mutated %d" % self.count if "COMP" in las.well else None
+                if "COMP" not in las.well:
+                    las.well.append(HeaderItem("COMP", value="mutated %d" % self.count))
+            elif how == 1:
+                las.version["VERS"].descr = "mutated %d" % self.count
+            elif how == 2:
+                las.curves[0].data[0] += 1000.0 + self.count
+            else:
+                las.params.append(HeaderItem("MUT%d" % self.count, value=self.count))
+        except (KeyError, IndexError, TypeError):
+            # the object lacks what this edit addresses (a read that went wrong is judged by its own event): edit something else
             las.params.append(HeaderItem("MUT%d" % self.count, value=self.count))
         return {"op": "mutate", "k": k, "live": self.live()}
 
     def write(self, k):
         las = self.objs[k - 1]
-        las.write(io.StringIO(), version=1.2 if self.count % 2 else None)
+        try:
+            las.write(io.StringIO(), version=1.2 if self.count % 2 else None)
+        except Exception:
+            pass        # an object that cannot be written (a read gone wrong, judged by its own event) still must not disturb the others
         return {"op": "write", "k": k, "live": self.live()}
 
 
